@@ -39,11 +39,11 @@ theorem resolveFiles_nil_iff (k : Keep) : resolveFiles k [] = [] := by simp [res
 
 /-- the kind/field rules commute with the resolution of the children. -/
 theorem fileFields_pass (path : AN Str) (kindA : AN FileKind) (subfile : AN Str) (padAmount : AN Nat)
-    (sect lo : AN Str) (so : AN (List (Str × Str))) (has : Bool) (children : D (List FileInfo))
+    (sect lo : AN Str) (so : AN (List (Str × Str))) (has pres : Bool) (children : D (List FileInfo))
     (dir : AN Str) (c : CondS) (keep : Keep) :
-    fileFields true path kindA subfile padAmount sect lo so has (mapD (resolveFiles .absent) children) dir c keep
-      = mapD (resolveFile .absent) (fileFields false path kindA subfile padAmount sect lo so has children dir c keep) := by
-  unfold fileFields
+    fileFields true path kindA subfile padAmount sect lo so has pres (mapD (resolveFiles .absent) children) dir c keep
+      = mapD (resolveFile .absent) (fileFields false path kindA subfile padAmount sect lo so has pres children dir c keep) := by
+  unfold fileFields filesR
   cases hpre : filePre path kindA subfile padAmount sect lo so with
   | error e => rfl
   | ok r =>
@@ -68,7 +68,7 @@ theorem fileFields_pass (path : AN Str) (kindA : AN FileKind) (subfile : AN Str)
               simp [resolveFile]
             · simp [resolveFile, hk, passDown_resolve_list]
     · simp only [hg, if_false]
-      cases has with
+      cases pres with
       | true => rfl
       | false =>
         cases hpost : filePost kind dir c with
@@ -90,9 +90,9 @@ mutual
       | value l =>
         simp only
         rw [unserializeList_pass l]
-        exact fileFields_pass _ _ _ _ _ _ _ _ _ _ _ _
-      | absent => exact fileFields_pass _ _ _ _ _ _ _ _ (.ok []) _ _ _
-      | null => exact fileFields_pass _ _ _ _ _ _ _ _ (.ok []) _ _ _
+        exact fileFields_pass _ _ _ _ _ _ _ _ _ _ _ _ _
+      | absent => exact fileFields_pass _ _ _ _ _ _ _ _ _ (.ok []) _ _ _
+      | null => exact fileFields_pass _ _ _ _ _ _ _ _ _ (.ok []) _ _ _
   theorem unserializeList_pass (l : List FileS) :
       FileS.unserializeList true l = mapD (resolveFiles .absent) (FileS.unserializeList false l) := by
     cases l with
